@@ -612,7 +612,7 @@ func main() {
 		}
 	}
 	r := hx.NewRand(ctx.Seed)
-	nBushy, nLong := ctx.Scale(750, 6000), ctx.Scale(50, 400)
+	nBushy, nLong := ctx.Scale(600, 6000), ctx.Scale(45, 400)
 	for i := 0; i < nBushy; i++ {
 		runOne(ctx, chainsim.GenBushy(r.Fork(uint64(i)), chainsim.GenOpts{Logs: true}))
 	}
